@@ -1,6 +1,7 @@
 SPECIFICATION Spec
 CONSTANTS
   MaxLen = 3
+  Emit = FALSE
   Family = "mapping"
 INVARIANTS AllInv
 CHECK_DEADLOCK FALSE
